@@ -4,7 +4,7 @@
 From Coq Require Import List NArith Bool Arith Sorted.
 From Coq Require Import Strings.Byte.
 Require Import BS.Bytes BS.Common BS.Api BS.Layout BS.Format BS.FormatFacts BS.Spec BS.SpecStep.
-Require Import BS.FS BS.FSFacts BS.Meta BS.MetaFacts BS.Header BS.Reader BS.ReaderFacts BS.Index BS.Data BS.DataFacts BS.Seek BS.Series BS.SeriesFacts BS.ReadAllFacts BS.TotalFacts BS.ExtractFacts BS.OpenFacts BS.TornFacts BS.TornGenFacts BS.Sections.
+Require Import BS.FS BS.FSFacts BS.Meta BS.MetaFacts BS.Header BS.Reader BS.ReaderFacts BS.Index BS.Data BS.DataFacts BS.Seek BS.Series BS.SeriesFacts BS.ReadAllFacts BS.TotalFacts BS.ExtractFacts BS.OpenFacts BS.TornFacts BS.TornGenFacts BS.Sections BS.HistoryFacts.
 Import ListNotations.
 
 
@@ -113,4 +113,42 @@ Theorem C05_index_rebuild : forall p fs data hdr name l, wf_series p l ->
     /\ (forall g, g <> name ++ ext_part -> g <> name ++ ext_index -> fs_get fs' g = fs_get fs g).
 Proof. exact create_from_byteseries_ok. Qed.
 Print Assumptions C05_index_rebuild.
-(* partial: payload sizes 0..3 with 0xFFFF words in a continuation slot (known finding D6) are outside the theorems; repeated crash-repair-append cycles follow by iterating these theorems with RepH as the invariant (C03). *)
+(* (I refines S) EVERY HISTORY: repeated crash-repair-append cycles of any length. A history is any list of steps
+   (HistoryFacts.hop): an append (accepted or refused), a read, a close-and-reopen, or a crash - the disk image after the
+   crash holds the data file cut at ANY byte and the index absent or cut at ANY byte - followed by an open. hexec runs the
+   model (push_line, read_all, builder_open); hspec is Layer S: an accepted append adds its line, a crash keeps exactly the
+   completely written lines (complete c l of them), everything else keeps the lines. hvalid asks of each step only what
+   the property quantifies over (u64 timestamps, an open with matching parameters, less than 2^64 bytes, and for payload
+   sizes 0..3 the marker-word condition of C04). Then every step of the history succeeds in the model and leaves the series
+   in its invariant for exactly the lines Layer S expects. *)
+Theorem C05_every_history : forall p name uhdr,
+  (len (params_to_text BSgen.Consts.version (N.of_nat p) ++ uhdr) <= 65535)%N -> (N.of_nat p < 2^64)%N ->
+  forall ops st l, hinv p name uhdr st l -> hvalid_all p name uhdr l ops ->
+  exists st', hrun name st ops = Some st' /\ hinv p name uhdr st' (fold_left (hspec p) ops l).
+Proof. exact history_ok. Qed.
+Print Assumptions C05_every_history.
+
+(* from creation, and every read after the history returns exactly the selected lines of what Layer S expects *)
+Theorem C05_every_history_from_create : forall p name uhdr,
+  (len (params_to_text BSgen.Consts.version (N.of_nat p) ++ uhdr) <= 65535)%N -> (N.of_nat p < 2^64)%N ->
+  forall fs cb0 ops,
+  fs_mem fs (name ++ ext_data) = false -> fs_mem fs (name ++ ext_index) = false -> hvalid_all p name uhdr [] ops ->
+  exists fs0 s0 st', series_new name (N.of_nat p) uhdr [] cb0 fs = (fs0, Ok s0)
+    /\ hrun name (fs0, s0) ops = Some st' /\ hinv p name uhdr st' (fold_left (hspec p) ops [])
+    /\ forall lo hi, let l := fold_left (hspec p) ops [] in
+          read_all (snd st') lo hi (fst st') = (fst st', Ok (select lo hi l))
+          \/ (select lo hi l = [] /\ read_all (snd st') lo hi (fst st') = (fst st', Err ERange)).
+Proof. exact history_from_create. Qed.
+Print Assumptions C05_every_history_from_create.
+
+(* the number of completely written lines is determined by the cut *)
+Theorem C05_complete_lines : forall p c l k, k <= length l -> elen p l k <= c -> (k < length l -> c < elen p l (S k)) ->
+  complete p c l = k.
+Proof. exact complete_unique. Qed.
+Print Assumptions C05_complete_lines.
+
+(* the premises are satisfiable: two appends, a crash cutting the second line in half and losing the index, an append, a
+   reopen: Layer S expects the lines 10 and 30 *)
+Check history_example.
+(* partial: payload sizes 0..3 with 0xFFFF words in a continuation slot (known finding D6) are outside the theorems;
+   series with cache levels: C09. *)
